@@ -302,7 +302,7 @@ Theorem C07_layout_preserves_items : forall fx numtxt keepc orl w e i,
   fmt_items (printer_oracles fx (policy_new fixed_opinfo) numtxt keepc)
             (print_items fx (policy_new fixed_opinfo) numtxt) key_item true orl w e i
   = print_items fx (policy_new fixed_opinfo) numtxt e.
-Proof. intros fx numtxt keepc w e i. exact (layout_preserves_items fixed_opinfo fx numtxt keepc orl w e i). Qed.
+Proof. intros fx numtxt keepc orl w e i. exact (layout_preserves_items fixed_opinfo fx numtxt keepc orl w e i). Qed.
 Check C07_layout_preserves_items : forall fx numtxt keepc orl w e i,
   fx_dominus fx = true ->
   wf e = true -> lam_ok e = true ->
@@ -348,7 +348,7 @@ Theorem C07_layout_preserves_statement_items : forall fx numtxt keepc orl w e i,
   fmt_items (printer_oracles fx (policy_new fixed_opinfo) numtxt keepc)
             (print_items fx (policy_new fixed_opinfo) numtxt) key_item true orl w e i
   = stmt_items fx (policy_new fixed_opinfo) numtxt e.
-Proof. intros fx numtxt keepc w e i. exact (layout_preserves_stmt_items fixed_opinfo fx numtxt keepc orl w e i). Qed.
+Proof. intros fx numtxt keepc orl w e i. exact (layout_preserves_stmt_items fixed_opinfo fx numtxt keepc orl w e i). Qed.
 Check C07_layout_preserves_statement_items : forall fx numtxt keepc orl w e i,
   fx_dominus fx = true ->
   wf (stmt_body e) = true -> lam_ok e = true ->
@@ -399,18 +399,18 @@ Proof. vm_compute. repeat split. Qed.
    span two lines, format_binary_op_multiline re-assembles it from str::lines(), which drops the "\r":
    the formatted text carries the literal "a\nb".  Witness on Formatter.v (the model of the code as it
    is), every width at which the first line fits; replayed on the implementation by the check. *)
-Definition w_crlf : expr :=
-  EBin Via (EId "xs") (ELam [AReq "x"] (EStr (String "a" (String CRc (String NLc "b"))))).
+Definition s_crlf : string := String (Ascii.ascii_of_nat 97) (String CRc (String NLc "b")).
+Definition w_crlf : expr := EBin Via (EId "xs") (ELam [AReq "x"] (EStr s_crlf)).
 Theorem C07_layout_crlf_refuted :
   let O := printer_oracles FX_ALL (policy_new fixed_opinfo) num_text true in
   wf w_crlf = true /\ lam_ok w_crlf = true /\ cr_free w_crlf = false /\
-  doc_relined (fmtd O 80 w_crlf 0) = [ELam [AReq "x"] (EStr (String "a" (String CRc (String NLc "b"))))] /\
+  doc_relined (fmtd O 80 w_crlf 0) = [ELam [AReq "x"] (EStr s_crlf)] /\
   lview (render (fmtd O 80 w_crlf 0)) <> lview (print_text FX_ALL (policy_new fixed_opinfo) num_text w_crlf).
 Proof. vm_compute. repeat split; try discriminate. Qed.
 Check C07_layout_crlf_refuted :
   let O := printer_oracles FX_ALL (policy_new fixed_opinfo) num_text true in
   wf w_crlf = true /\ lam_ok w_crlf = true /\ cr_free w_crlf = false /\
-  doc_relined (fmtd O 80 w_crlf 0) = [ELam [AReq "x"] (EStr (String "a" (String CRc (String NLc "b"))))] /\
+  doc_relined (fmtd O 80 w_crlf 0) = [ELam [AReq "x"] (EStr s_crlf)] /\
   lview (render (fmtd O 80 w_crlf 0)) <> lview (print_text FX_ALL (policy_new fixed_opinfo) num_text w_crlf).
 Print Assumptions C07_layout_crlf_refuted.
 
